@@ -236,6 +236,19 @@ template <class C> struct RangeOps
                         std::memcpy(dst, before, LEN);
                         std::uninitialized_copy(sit + i, sit + j, dit + k);
                         check("uninitialized_copy", i, j, k, dpos, src, spos, false);
+                        // source and destination in the SAME row (forward copy to a lower index is legal): the two references of an assignment
+                        // can then start in the same byte, differing only in their bit offset; once per destination offset (os == 0)
+                        if (os == 0 && k < i)
+                        {
+                            std::memcpy(dst, before, LEN);
+                            typename C::citer_t cdit(dst + ROWB, od);
+                            std::copy(dit + i, dit + j, dit + k);
+                            check("copy(same row)", i, j, k, dpos, before, dpos, false);
+                            std::memcpy(dst, before, LEN);
+                            std::copy(cdit + i, cdit + j, dit + k);
+                            check("copy(same row, const src)", i, j, k, dpos, before, dpos, false);
+                            ++ctx.witness["ba_copy_within_one_row"];
+                        }
                     }
                 }
         }
